@@ -193,13 +193,27 @@ pub fn native(cfg: &cgv_core::fw::RunCfg, extra: &mut cgv_core::fw::Extra) {
         ($T:ty, $tag:expr, $tol:expr, $slot:expr, $min_exp:expr) => {{
             for i in 0..n {
                 let mut rng = Rng::for_case(cfg.seed, concat!("c05_native_", $tag), i);
-                let axis = Vector3::new(rng.uniform(-1.0, 1.0), rng.uniform(-1.0, 1.0), rng.uniform(-1.0, 1.0));
+                // axis: uniform in the cube, or (every other case) with log-uniform component
+                // magnitudes, so that axes hugging a coordinate axis or plane are exercised
+                let skew = rng.bool();
+                let axis = if skew {
+                    let mut comp = |rng: &mut Rng| 10f64.powf(rng.uniform($min_exp * 0.75, 0.0)) * if rng.bool() { 1.0 } else { -1.0 };
+                    Vector3::new(comp(&mut rng), comp(&mut rng), comp(&mut rng))
+                } else {
+                    Vector3::new(rng.uniform(-1.0, 1.0), rng.uniform(-1.0, 1.0), rng.uniform(-1.0, 1.0))
+                };
                 if axis.magnitude2() < 0.01 {
                     continue;
                 }
                 let axis: Vector3<$T> = axis.normalize().cast().unwrap();
                 let axis = axis.normalize();
-                let angle = (10f64.powf(rng.uniform($min_exp, 0.5)) * if rng.bool() { 1.0 } else { -1.0 }) as $T;
+                // angle: log-uniform small ones, or (one case in three) uniform over the large
+                // rotations where the matrix-to-quaternion conversion takes its negative-trace branches
+                let angle = if rng.chance(1, 3) {
+                    rng.uniform(2.0, 6.25) as $T
+                } else {
+                    (10f64.powf(rng.uniform($min_exp, 0.5)) * if rng.bool() { 1.0 } else { -1.0 }) as $T
+                };
                 let v = Vector3::new(rng.uniform(-4.0, 4.0) as $T, rng.uniform(-4.0, 4.0) as $T, rng.uniform(-4.0, 4.0) as $T);
                 let r = cgv_core::fw::catch(|| {
                     let q = Quaternion::from_axis_angle(axis, Rad(angle));
@@ -248,7 +262,7 @@ pub fn native(cfg: &cgv_core::fw::RunCfg, extra: &mut cgv_core::fw::Extra) {
     extra.samples.push(json!({"clause": "native_agreement", "example": "angle 3.2e-9 rad about a random unit axis: q*v, Matrix3::from(q)*v, Basis3, Matrix4, Matrix3::from_axis_angle, round trip through Matrix3"}));
     extra.sections.insert(
         "native_agreement_of_representations".into(),
-        json!({"cases": evals, "angles": "log-uniform 1e-12..3 rad (f64), 1e-6..3 rad (f32), both signs", "worst_relative_disagreement_f64": worst[0], "tolerance_f64": 1e-12,
+        json!({"cases": evals, "angles": "log-uniform 1e-12..3 rad (f64), 1e-6..3 rad (f32), both signs; one in three uniform in [2, 6.25] rad", "axes": "uniform in the cube, or component magnitudes log-uniform down to 1e-9 (f64) / 3e-5 (f32), normalised", "worst_relative_disagreement_f64": worst[0], "tolerance_f64": 1e-12,
                "worst_relative_disagreement_f32": worst[1], "tolerance_f32": 5e-5}),
     );
 }
